@@ -4,7 +4,7 @@ import sympy as sp
 from sympy import Symbol, Function, S, Sum, oo
 from ..ir import (AnalysisBroken, Undecided, show, strip, strip_casts, walk_stmts, stmt_exprs, walk_expr, calls,
                   all_exprs, local_decls)
-from ..symx import Symx, State, Arr, is_zero
+from ..symx import Symx, State, Arr, is_zero, return_cases, cond_atoms
 
 L = 'libphysica::'
 
@@ -167,9 +167,12 @@ def discrete(prog, ctx):
     fn, sx, outs = paths(prog, 'CDF_Poisson')
     mu, n = sx.symbol(fn.params[0]['name'], 'double'), sx.symbol(fn.params[1]['name'], 'unsigned int')
     gq = FN('GammaQ')(mu, n + 1)
-    rets = [o for o in outs if o.kind == 'return']
-    ok = len(rets) == 2 and any(o.value == gq and (o.cond.has(sp.Ge(gq, 0)) or sp.Ge(gq, 0) in o.state.conds) for o in rets) and any(o.value == 0 for o in rets)
-    ctx.decide(R, 'CDF_Poisson', fn, ok, 'max(GammaQ(mu, n+1), 0)', 'CDF_Poisson returns %s' % [(str(o.cond)[-60:], str(o.value)) for o in rets])
+    rets = return_cases(outs)
+    pos = (sp.Ge(gq, 0), sp.Le(0, gq), sp.Gt(gq, 0), sp.Lt(0, gq))
+    neg = (sp.Lt(gq, 0), sp.Gt(0, gq), sp.Le(gq, 0), sp.Ge(0, gq))
+    ok = len(rets) == 2 and any(v_ == gq and any(a_ in pos for a_ in cond_atoms(c_)) for c_, v_ in rets) \
+        and any(v_ == 0 and any(a_ in neg for a_ in cond_atoms(c_)) for c_, v_ in rets)
+    ctx.decide(R, 'CDF_Poisson', fn, ok, 'max(GammaQ(mu, n+1), 0)', 'CDF_Poisson returns %s' % [(str(c_)[-60:], str(v_)) for c_, v_ in rets])
     fn, sx, outs = paths(prog, 'Inv_CDF_Poisson')
     nn, c = sx.symbol(fn.params[0]['name'], 'unsigned int'), sx.symbol(fn.params[1]['name'], 'double')
     rets = [o for o in outs if o.kind == 'return']
